@@ -170,7 +170,19 @@ func ruleUnpackValidationScope(r *Run) {
 	}
 	n := 0
 	bad := false
-	for _, g := range funcGroup(fn) {
+	grp := funcGroup(fn)
+	if h, _ := unpackFieldHandler(fn); h != nil {
+		inG := false
+		for _, g := range grp {
+			if g == h {
+				inG = true
+			}
+		}
+		if !inG {
+			grp = append(grp, funcGroup(h)...)
+		}
+	}
+	for _, g := range grp {
 		for _, c := range callsIn(g) {
 			callee := staticCallee(c)
 			if callee == nil || cname(callee) != "IsValidLabel" {
